@@ -125,8 +125,147 @@ pub enum Recovered {
     Ok { content: Content, inconsistent: Option<String> },
 }
 
-/// Opens the image (no shim, no worker threads), observes every listed keyspace, closes.
+fn hex(b: &[u8]) -> String {
+    b.iter().map(|x| format!("{x:02x}")).collect()
+}
+fn unhex(s: &str) -> Vec<u8> {
+    (0..s.len() / 2).filter_map(|i| u8::from_str_radix(&s[2 * i..2 * i + 2], 16).ok()).collect()
+}
+
+impl Recovered {
+    pub fn to_json(&self) -> serde_json::Value {
+        use serde_json::json;
+        match self {
+            Recovered::OpenErr(e) => json!({"t": "err", "m": e}),
+            Recovered::Panic(e) => json!({"t": "panic", "m": e}),
+            Recovered::Ok { content, inconsistent } => json!({
+                "t": "ok",
+                "i": inconsistent,
+                "c": content.iter().map(|(k, m)| (k.clone(), serde_json::Value::Object(m.iter().map(|(a, b)| (hex(a), serde_json::Value::String(hex(b)))).collect()))).collect::<serde_json::Map<_, _>>(),
+            }),
+        }
+    }
+    pub fn from_json(v: &serde_json::Value) -> Recovered {
+        match v["t"].as_str().unwrap_or("") {
+            "err" => Recovered::OpenErr(v["m"].as_str().unwrap_or("").to_string()),
+            "ok" => {
+                let mut content = Content::new();
+                if let Some(o) = v["c"].as_object() {
+                    for (k, m) in o {
+                        let mut mm = Map::new();
+                        if let Some(mo) = m.as_object() {
+                            for (a, b) in mo {
+                                mm.insert(unhex(a), unhex(b.as_str().unwrap_or("")));
+                            }
+                        }
+                        content.insert(k.clone(), mm);
+                    }
+                }
+                Recovered::Ok { content, inconsistent: v["i"].as_str().map(String::from) }
+            }
+            _ => Recovered::Panic(v["m"].as_str().unwrap_or("panic").to_string()),
+        }
+    }
+}
+
+struct Helper {
+    child: std::process::Child,
+    stdin: std::process::ChildStdin,
+    stdout: std::io::BufReader<std::process::ChildStdout>,
+}
+
+impl Drop for Helper {
+    fn drop(&mut self) {
+        let _ = self.child.kill();
+        let _ = self.child.wait();
+    }
+}
+
+thread_local! {
+    static HELPER: std::cell::RefCell<Option<Helper>> = const { std::cell::RefCell::new(None) };
+    static IN_HELPER: std::cell::Cell<bool> = const { std::cell::Cell::new(false) };
+}
+
+fn spawn_helper() -> Option<Helper> {
+    let exe = std::env::current_exe().ok()?;
+    let mut child = std::process::Command::new(exe)
+        .arg("recover-server")
+        .env_remove("LD_PRELOAD")
+        .stdin(std::process::Stdio::piped())
+        .stdout(std::process::Stdio::piped())
+        .stderr(std::process::Stdio::null())
+        .spawn()
+        .ok()?;
+    let stdin = child.stdin.take()?;
+    let stdout = std::io::BufReader::new(child.stdout.take()?);
+    Some(Helper { child, stdin, stdout })
+}
+
+/// Serves recovery requests (`<cfgspec>\t<dir>` per line) until stdin closes. A recovery that aborts the
+/// process (e.g. a panic inside a destructor while unwinding) only kills this helper.
+pub fn recover_server_main() -> i32 {
+    use std::io::BufRead;
+    IN_HELPER.with(|h| h.set(true));
+    let stdin = std::io::stdin();
+    let mut out = std::io::stdout();
+    for line in stdin.lock().lines() {
+        let Ok(line) = line else { break };
+        let Some((spec, dir)) = line.split_once('\t') else { continue };
+        let Some(cfg) = Cfg::from_spec(spec) else { continue };
+        let r = recover_and_observe_inproc(Path::new(dir), &cfg);
+        let _ = writeln!(out, "{}", r.to_json());
+        let _ = out.flush();
+    }
+    0
+}
+
+/// Opens the image (no shim, no worker threads), observes every listed keyspace, closes. Runs in a helper
+/// process (one per harness thread, reused), so that a recovery that aborts is an observation, not the end of the run.
 pub fn recover_and_observe(dir: &Path, cfg: &Cfg) -> Recovered {
+    if IN_HELPER.with(|h| h.get()) || std::env::var("FJV_INPROC_RECOVER").is_ok() {
+        return recover_and_observe_inproc(dir, cfg);
+    }
+    HELPER.with(|cell| {
+        let mut slot = cell.borrow_mut();
+        for _attempt in 0..2 {
+            if slot.is_none() {
+                *slot = spawn_helper();
+            }
+            let Some(h) = slot.as_mut() else {
+                return recover_and_observe_inproc(dir, cfg);
+            };
+            use std::io::BufRead;
+            if writeln!(h.stdin, "{}\t{}", cfg.to_spec(), dir.display()).is_err() || h.stdin.flush().is_err() {
+                *slot = None;
+                continue;
+            }
+            let mut line = String::new();
+            match h.stdout.read_line(&mut line) {
+                Ok(n) if n > 0 => {
+                    if let Ok(v) = serde_json::from_str::<serde_json::Value>(&line) {
+                        return Recovered::from_json(&v);
+                    }
+                    *slot = None;
+                    return Recovered::Panic("helper returned garbage".into());
+                }
+                _ => {
+                    // helper died while recovering this image
+                    let status = h.child.wait().map(|s| format!("{s}")).unwrap_or_default();
+                    *slot = None;
+                    return Recovered::Panic(format!("recovery aborted the process ({status})"));
+                }
+            }
+        }
+        recover_and_observe_inproc(dir, cfg)
+    })
+}
+
+pub fn recover_and_observe_inproc(dir: &Path, cfg: &Cfg) -> Recovered {
+    if let Ok(k) = std::env::var("FJV_KEEP_IMAGES") {
+        static N: std::sync::atomic::AtomicU64 = std::sync::atomic::AtomicU64::new(0);
+        let n = N.fetch_add(1, std::sync::atomic::Ordering::Relaxed);
+        let _ = copy_tree(dir, &Path::new(&k).join(format!("{n}")));
+    }
     let r = std::panic::catch_unwind(std::panic::AssertUnwindSafe(|| {
         let db = match open_db(dir, cfg, &None) {
             Ok(d) => d,
